@@ -403,9 +403,10 @@ func c06Run(c *mc.Ctx) {
 func init() {
 	Register(&Check{
 		ID: "C06", Level: "exploration",
-		Rule:        "all 65536 flag words; all 256 protocol ids (the 5 supported ones take part in the round trip, the others in layout conformance); sequence ids incl. every single bit; all string-keyed x int-keyed maps with <= 2 (thorough 3) entries over key/value alphabets so that every padding residue and every section combination occurs; limit sweep of the unpadded header-info size over 65500..65545 for four section shapes; writers {EncodeToBytes, Encode into a bytes writer with non-empty initial slice, Encode into an io.Writer-backed writer}; readers {DecodeFromBytes, Decode over bytes reader, Decode over stream reader under fragmentation}; payloads 0..70000 bytes with the total-length field patched through the returned slice; distinct = distinct parameter sets",
-		Assumptions: []string{"when Encode returns an error nothing more is required (counted under encodes-failed-or-skipped)", "decoded maps are compared modulo nil/empty; Go map iteration order inside Encode is not owned: the layout oracle parses sections order-insensitively"},
-		Run:         c06Run,
+		Rule:          "all 65536 flag words; all 256 protocol ids (the 5 supported ones take part in the round trip, the others in layout conformance); sequence ids incl. every single bit; all string-keyed x int-keyed maps with <= 2 (thorough 3) entries over key/value alphabets so that every padding residue and every section combination occurs; limit sweep of the unpadded header-info size over 65500..65545 for four section shapes; writers {EncodeToBytes, Encode into a bytes writer with non-empty initial slice, Encode into an io.Writer-backed writer}; readers {DecodeFromBytes, Decode over bytes reader, Decode over stream reader under fragmentation}; payloads 0..70000 bytes with the total-length field patched through the returned slice; distinct = distinct parameter sets",
+		Assumptions:   []string{"when Encode returns an error nothing more is required (counted under encodes-failed-or-skipped)", "decoded maps are compared modulo nil/empty; Go map iteration order inside Encode is not owned: the layout oracle parses sections order-insensitively"},
+		Run:           c06Run,
+		UnownedNondet: func(sub string, raw json.RawMessage) bool { return true },
 		Replay: func(c *mc.Ctx, sub string, raw json.RawMessage) {
 			replayAs(raw, func(k c06Case) {
 				setAllocCap(64 << 20)
